@@ -18,6 +18,11 @@ CLAIMED = {
    note="Trusted: the ring model in props/c11.rs, the double-barrier argument (epoll batch semantics), the raw spec-encoding client. Kicks are raised on the current descriptor and on stale descriptors the front end still holds; fatal-by-protocol steps are skipped; an extra handler call for an active ring without a kick is only counted.",
    technique="model-based (stateful) property testing with bounded-exhaustive + proptest histories vs. reference ring model, double-barrier observation",
    ref="DESIGN.md section 3, C11"),
+ "C12": dict(level="exploration",
+   text="The harness owns the schedule at the instrumented points (cargo feature verif-hooks): for three scenarios (disable/enable, stop/restart with a new kick descriptor, reset/re-feature) on a started, enabled, kicked ring, every word over {worker advances to its next hold point, control path advances, one more guest kick} with 4 worker and 3 control steps and at most one extra kick is executed on a fresh daemon for both vring kinds (1890 words; exhaustive for one wake-up against one disabling message at hold-point granularity), and invariants over the history recorded on one logical clock are checked: no handler entry between 'reply to the disabling message received' and 'enabling message sent', every kick on a descriptor that stays current is followed by a handler entry, worker alive. This explores the instrumented interleavings, not all machine-level ones.",
+   note="Trusted: hold-point controller, thread-state sampling as 'blocked/idle' diagnosis (no deadline as correctness signal), the logical clock. Two genuine defects are recorded as known findings (F9a, F9c in known-findings.json) and excluded by their exact trigger pattern in the trace, so the search continues behind them; F9b was repaired. Kicks on descriptors dropped by GET_VRING_BASE are not required to be delivered.",
+   technique="schedule enumeration with harness-owned hold points (controlled interleavings) + history invariants",
+   ref="DESIGN.md section 3, C12"),
  "C13": dict(level="exploration",
    text="Stateful property testing of a real daemon: random histories of SET_MEM_TABLE/ADD_MEM_REG/REM_MEM_REG with generated geometry (adjacent/overlapping/duplicate/unordered regions, failing mmaps, user ranges up to the top of the 64-bit space), each step checked against a memory-table model: region set of the guest memory handed to the back end, update_memory count, byte backing in both directions through the passed files, and SET_VRING_ADDR translation probes at region edges. A refused request ends the connection (daemon policy), the harness reconnects to the same daemon, which is how 'previous table intact' is observed.",
    note="Trusted: the memtable model in props/c13.rs, vm-memory's GuestMemory read/write as the observation channel, the double barrier for sampling the queue's descriptor-table address. Unsorted/overlapping SET_MEM_TABLE may fail or succeed; probes with overlapping user ranges are skipped; failing application update_memory callbacks are not injected.",
